@@ -3,6 +3,7 @@ package timer
 
 import (
 	"fmt"
+	"os"
 	"sort"
 	"strings"
 	"time"
@@ -33,6 +34,7 @@ type fut struct {
 }
 
 type world struct {
+	stalls   [][2]time.Time // [start, end) of callbacks that took simulated time
 	c        *sim.Case
 	e        *sim.Env
 	futs     map[string]*fut
@@ -114,6 +116,7 @@ func (w *world) callback(f *fut) func() {
 		}
 		if f.stall > 0 {
 			e.Probe("callback_stalled")
+			w.stalls = append(w.stalls, [2]time.Time{time.Now(), time.Now().Add(f.stall)})
 			zsimrt.Sleep("cb:stall", f.stall)
 		}
 	}
@@ -337,11 +340,26 @@ func (w *world) Idle(e *sim.Env) {
 		if f.cancelInv || f.count > 0 || !f.created || f.f == nil || f.d > practicallyNever {
 			continue
 		}
+		if w.stalledSince(f.due) {
+			// a callback that takes its time held a worker while this future was due: its
+			// lateness is the callback's doing ("when callbacks return promptly")
+			continue
+		}
 		if now.Sub(f.due) > L {
 			e.Violate("C13", "asleep_past_deadline", "nothing is runnable while future %s (delay %v) is overdue by %v (slack %v); workers=%d pending=%d", f.id, f.d, now.Sub(f.due), L, timeout.VerifWatchers(), timeout.VerifPending())
 			return
 		}
 	}
+}
+
+// stalledSince: was some callback inside its stall at any moment from t on?
+func (w *world) stalledSince(t time.Time) bool {
+	for _, iv := range w.stalls {
+		if iv[1].After(t) {
+			return true
+		}
+	}
+	return false
 }
 
 func (w *world) Quiet(e *sim.Env) bool {
@@ -355,6 +373,8 @@ func (w *world) Teardown(e *sim.Env) {
 
 // ---------------------------------------------------------------------------
 // Generation
+
+var forcePattern bool
 
 func Generate(r *sim.Rng, prop, tier string, idx int) *sim.Case {
 	c := &sim.Case{World: "timer", Prop: prop, Knobs: map[string]int64{}}
@@ -464,11 +484,44 @@ func Generate(r *sim.Rng, prop, tier string, idx int) *sim.Case {
 	if nt > 3 {
 		nt = 3
 	}
+	if os.Getenv("DSIM_C13_EXPIRY") != "" {
+		// (experiment switch: only the "new head at an idle expiry" pattern, one task)
+		nt = 1
+		forcePattern = true
+		c.Sched.OldTimers = true
+	}
 	for t := 0; t < nt; t++ {
 		task := sim.Task{Name: fmt.Sprintf("t%d", t)}
 		np := 1 + r.Intn(3)
 		for p := 0; p < np; p++ {
-			switch r.Intn(6) {
+			pat := r.Intn(8)
+			if forcePattern {
+				pat = 6
+			}
+			switch pat {
+			case 6, 7: // a burst leaves several workers behind; a new head arrives within a few steps of
+				// the instant at which an idle worker's sleep runs out (one or two idle rounds later)
+				nb := 2 + r.Intn(3)
+				for i := 0; i < nb; i++ {
+					op := sim.Op{K: "call", D: 0}
+					if i == 0 && maxW > nb && r.Chance(2, 3) {
+						// one callback takes a while (the pool has room): the workers go idle at
+						// different moments, so their idle rounds are out of phase
+						op.E = int64(sim.Pick(r, idle/2, idle/3, idle/5))
+					}
+					task.Ops = append(task.Ops, op)
+				}
+				rounds := int64(1 + r.Intn(2))
+				// (most steps advance the clock by far less than max_jitter: the phase between the
+				// task's timer and a worker's timer is of the order of max_jitter itself)
+				off := r.I64n(8*c.Sched.MaxJitter) - 2*c.Sched.MaxJitter
+				if r.Chance(1, 4) {
+					off = r.I64n(80*c.Sched.MaxJitter) - 10*c.Sched.MaxJitter
+				}
+				task.Ops = append(task.Ops, sim.Op{K: "sleep", D: rounds*int64(idle) + off})
+				task.Ops = append(task.Ops, sim.Op{K: "call", D: int64(sim.Pick(r, idle/20, idle/4, idle/2))})
+				// and then nothing from this task for a while: whoever was woken for that head is on its own
+				task.Ops = append(task.Ops, sim.Op{K: "sleep", D: int64(idle)})
 			case 0: // far then near (the far one may be "practically never": it must not stand in the way of anything)
 				task.Ops = append(task.Ops, sim.Op{K: "call", D: int64(sim.Pick(r, time.Minute, 10*time.Second, time.Hour, time.Hour, time.Duration(1<<63-1), 250*365*24*time.Hour, 292*365*24*time.Hour))})
 				if r.Chance(1, 2) {
